@@ -67,3 +67,16 @@ CHECKS["C03"] = {
         {"pkg": MUX, "run": "^TestVerif_C03_Close$", "checks": {"quick": 2000, "thorough": 300000}, "shards": {"thorough": 16}, "timeout": {"quick": 300}},
     ],
 }
+
+CHECKS["C12"] = {
+    "level": "fault_enumeration",
+    "technique": "rapid-generated base scenarios; a connection reset (preceded by a partial delivery cutting a record in a chosen offset class) or a session Close (optionally racing with other calls) is injected at EVERY operation position of each base scenario; teardown oracle at quiescence (synctest bubble)",
+    "level_text": "For each generated base scenario the fault is enumerated over every operation boundary and, per fault spec, over connection x offset class (record boundary, TLS header, frame header, payload, tag); after each injection the interpreter drains the network and checks prefix-only delivery, that every parked Read/Write/Accept/Close returned, that OpenStream is refused, that every connection end was closed, and (before the fault) that the active-stream counter equals the model count at every quiescent step; inactivity-timer phases are explored on the virtual clock.",
+    "level_note": "Schedules inside a step are the Go runtime's; under back pressure only one writer per stream is generated (a parked writer holds the stream mutex, which synctest cannot treat as durably blocked).",
+    "rule": "base scenario: rapid-drawn config (ordered/unordered, 1..8 conns or singleplex, optional bounded buffers) and <=30 ops; faults: 1..3 specs x every position 0..len(ops). Non-trivial = fault strictly inside a record, or frames had arrived out of order before it, or a goroutine was parked in Read/Write at the fault; distinct = distinct scenarios (each standing for (len(ops)+1) x specs executions, counted in evaluations).",
+    "assumptions": ["a reset is seen by both ends; EOF is seen after in-flight bytes were delivered (TCP-like)"],
+    "jobs": [
+        {"pkg": MUX, "run": "^TestVerif_C12_Faults$", "checks": {"quick": 500, "thorough": 40000}, "shards": {"thorough": 16}, "timeout": {"quick": 300}},
+        {"pkg": MUX, "run": "^TestVerif_C12_Inactivity$", "checks": {"quick": 1500, "thorough": 150000}, "shards": {"thorough": 16}, "timeout": {"quick": 300}},
+    ],
+}
